@@ -18,6 +18,36 @@ STUB_WS = ["TCP/socket: sim link (two FIFO octet pipes with segmentation, stall,
            "wall clock, os.urandom, random: seeded shims on module attributes"]
 
 META = {
+    "C01": {
+        "title": "WebSocket messages arrive intact, exactly once and in order",
+        "budgets": {"quick": (120000, 60), "thorough": (3000000, 1200)},
+        "variants": ALL_VARIANTS,
+        "rule": ("one run = real client <-> real server with drawn options (autoFragmentSize, applyMask, mask policies, "
+                 "utf8 validation, permessage-deflate, subprotocols/headers), a drawn plan of up to 8 sends per side over "
+                 "the message / frame / streaming / prepared / low-level chopped APIs with lengths from "
+                 "{0,1,125,126,127,65535,65536,65537,2^17+3,...}, sync writes and pings, some issued inside onOpen; the "
+                 "whole conversation incl. the opening handshake is delivered under a seeded segmentation (and, in 'cut' "
+                 "mode, a connection cut); non-trivial = at least one message delivered and at least one delivery split a "
+                 "buffered stream; distinct = hash of the (action kind, protocol states) sequence"),
+        "real": REAL_WS,
+        "stub": STUB_WS,
+        "design_ref": "DESIGN.md section 4, C01",
+    },
+    "C02": {
+        "title": "Incoming byte streams are judged exactly as RFC 6455 prescribes",
+        "budgets": {"quick": (400000, 60), "thorough": (8000000, 1500)},
+        "variants": ALL_VARIANTS,
+        "rule": ("batch prefix: the first two header octets walk all 65536 values (quick tier: a 4096-value stride sample) "
+                 "in each of 16 receiver contexts (role x inside/outside fragmented message x compression x failByDrop), "
+                 "each completed with a minimal consistent tail and a trailing ping; then generated streams of up to 10 "
+                 "frames from a grammar of valid and near-valid frames (17 violation classes, close-frame variants, "
+                 "compressed and fragmented messages, truncated tails). Every stream is judged by the independent "
+                 "reference receiver and delivered under a seeded segmentation; non-trivial = stream non-empty and at "
+                 "least one delivery split the buffered stream; distinct = hash of the (action kind, emitted octets, state) sequence"),
+        "real": REAL_WS,
+        "stub": STUB_WS + ["remote endpoint: scripted octet-level peer", "oracle: sim/ref_ws.judge_stream reference receiver"],
+        "design_ref": "DESIGN.md section 4, C02",
+    },
     "C05": {
         "title": "WebSocket connections close exactly once, in order, and in bounded time",
         "budgets": {"quick": (60000, 55), "thorough": (4000000, 900)},
